@@ -18,6 +18,7 @@ from ..core import astutil as au
 from ..core.report import AnalysisError
 from ..core.tables import FiniteEval
 from ..expr.lift import Lifter, equal
+from ..core.template import find, has, require
 
 LEVEL = 'other'
 MP = 'emg3d/_multiprocessing.py'
@@ -35,93 +36,129 @@ def run(ctx):
                        'sqrt(rho_v/rho_h); empymod itself is trusted']
     mm = ctx.repo.mod(MODELS)
     ex = mm.method('Model', 'extract_1d')
-    # L1: pp normalised before being stored into imat
-    pps = [n for n in ast.walk(ex) if isinstance(n, ast.Assign) and
-           ast.unparse(n.targets[0]) == 'pp']
-    norm = [n for n in ast.walk(ex) if isinstance(n, ast.AugAssign) and
-            ast.unparse(n.target) == 'pp' and isinstance(n.op, ast.Div)]
-    store = [n for n in ast.walk(ex) if isinstance(n, ast.Assign) and
-             ast.unparse(n.targets[0]).startswith('imat[')]
-    ctx.anchor(len(store) == 1 and pps, 'extraction weights in extract_1d')
-    ok = len(norm) == 1 and ast.unparse(norm[0].value).replace(' ', '') == \
-        'pp.sum()' and norm[0].lineno < store[0].lineno and \
-        ast.unparse(store[0].value) == 'pp'
+    # L1: weights normalised before they are stored into the weight matrix
+    st = find('_imat_[_a_:_b_, _c_:_d_] = _pp_', ex)
+    ctx.anchor(len(st) == 1, 'extraction weights stored in extract_1d')
+    store, sb = st[0]
+    pp, imat = sb['_pp_'], sb['_imat_']
+    norm = find(f'{pp} /= {pp}.sum()', ex)
     ctx.check('C19.L1.weights', 'extract_1d: weights normalised before use',
-              ok, 'extraction weights are stored without being divided by '
-              'their sum (they must sum to one)', ctx.where(mm, store[0]))
-    outer = [n for n in pps if 'np.outer' in ast.unparse(n.value)]
-    ok = len(outer) == 1 and ast.unparse(outer[0].value).replace(' ', '') == \
-        'np.outer(self.grid.h[0][six:eix+1],self.grid.h[1][siy:eiy+1])'
+              len(norm) == 1 and norm[0][0].lineno < store.lineno,
+              'extraction weights are stored without being divided by '
+              'their sum (they must sum to one)', ctx.where(mm, store))
+    outer = find(f'{pp} = np.outer(self.grid.h[0][_a_:_b_], '
+                 f'self.grid.h[1][_c_:_d_])', ex, {k: sb[k] for k in
+                                                    ('_a_', '_b_', '_c_',
+                                                     '_d_')})
     ctx.check('C19.L1.weights', 'extract_1d: weights = outer product of cell '
-              'widths', ok, 'weights are not hx (x) hy of the selected cells '
-              '(area weighting)', ctx.where(mm, ex))
-    mask = [n for n in ast.walk(ex) if isinstance(n, ast.AugAssign) and
-            ast.unparse(n.target) == 'pp' and isinstance(n.op, ast.Mult)]
-    ok = len(mask) == 1 and ast.unparse(mask[0].value).replace(' ', '') == \
-        'use[six:eix+1,siy:eiy+1]' and mask[0].lineno < norm[0].lineno and \
-        [ast.unparse(t).replace(' ', '') for t, p in
-         au.guards_of(mask[0], ex) if p][-1] == "method=='cylinder'"
+              'widths', len(outer) == 1, 'weights are not hx (x) hy of the '
+              'selected cells (area weighting)', ctx.where(mm, ex))
+    mask = find(f'{pp} *= _use_[_a_:_b_, _c_:_d_]', ex,
+                {k: sb[k] for k in ('_a_', '_b_', '_c_', '_d_')})
+    ok = len(mask) == 1 and norm and mask[0][0].lineno < norm[0][0].lineno \
+        and [ast.unparse(t).replace(' ', '') for t, p_ in
+             au.guards_of(mask[0][0], ex) if p_][-1:] == ["method=='cylinder'"]
     ctx.check('C19.L1.weights', 'extract_1d: ellipse mask before the '
-              'normalisation', ok, 'ellipse mask is not applied (cylinder '
-              'only) before the weights are normalised', ctx.where(mm, ex))
-    one = [n for n in pps if ast.unparse(n.value) == '1.0']
+              'normalisation', bool(ok), 'ellipse mask is not applied '
+              '(cylinder only) before the weights are normalised',
+              ctx.where(mm, ex))
+    one = find(f'{pp} = 1.0', ex)
     ctx.check('C19.L1.weights', 'extract_1d: midpoint weight is one',
               len(one) == 1, 'midpoint extraction does not use weight 1',
               ctx.where(mm, ex))
-    t = ast.unparse(ex).replace(' ', '')
+    lg = find("if not self.map.name.startswith('L'):\n"
+              "    _v_ = np.log10(_v_)", ex)
+    pw = find("if not self.map.name.startswith('L'):\n"
+              "    _w_ = 10**_w_", ex)
+    avg = find(f"_w_ = np.einsum('ij,ijk->k', {imat}, _v_)", ex)
+    ok = len(lg) == 1 and len(pw) == 1 and len(avg) == 1 and \
+        lg[0][1]['_v_'] == avg[0][1]['_v_'] and \
+        pw[0][1]['_w_'] == avg[0][1]['_w_'] and \
+        lg[0][0].lineno < avg[0][0].lineno < pw[0][0].lineno
     ctx.check('C19.L1.average', 'extract_1d: log10 / 10** guard pairing',
-              t.count("ifnotself.map.name.startswith('L'):") == 2 and
-              'values=np.log10(values)' in t and 'val=10**val' in t and
-              "val=np.einsum('ij,ijk->k',imat,values)" in t,
-              'logarithmic averaging is not applied and undone under the '
-              'same condition', ctx.where(mm, ex))
+              ok, 'logarithmic averaging is not applied and undone under the '
+              'same condition around the weighted sum', ctx.where(mm, ex))
+    loops = [n for n in ast.walk(ex) if isinstance(n, ast.For) and
+             ast.unparse(n.iter) == 'self._def_properties']
     ctx.check('C19.L1.average', 'extract_1d: every defined property is '
-              'extracted', 'forpropinself._def_properties:' in t and
-              'props[prop]=val' in t and
-              'layered=Model(grid=grid_out,**props,mapping=self.map)' in t,
+              'extracted', len(loops) >= 1 and has(
+                  'Model(grid=__, **_props_, mapping=self.map)', ex),
               'layered model does not carry all properties / the mapping',
               ctx.where(mm, ex))
     # L2
     mp = ctx.repo.mod(MP)
     ly = mp.func('layered')
-    t = ast.unparse(ly).replace(' ', '')
-    fi_def = [n for n in ast.walk(ly) if isinstance(n, ast.Assign) and
-              ast.unparse(n.targets[0]) == 'fi']
-    ctx.anchor(len(fi_def) == 2, 'finite mask in layered()')
-    for what, pat in (('frequencies', 'freqs=frequencies[fi]'),
-                      ('observed', 'obs=observed.loc[rkey,:].data[fi]'),
-                      ('weights', 'wgt=weights.loc[rkey,:].data[fi]'),
-                      ('residual', 'res=residual.loc[rkey,:].data[fi]'),
-                      ('output slots', 'out[i,fi]=_empymod_fwd(')):
-        ctx.check('C19.L2.mask', f'layered: finite mask applied to {what}',
-                  pat in t, f'{what} are not restricted with the finite-'
-                  'observation mask of this receiver', ctx.where(mp, ly),
-                  sample={'array': what})
+    lp_ = au.params(ly)[0]
+
+    def local_of(key):
+        f = find(f"_x_ = {lp_}['{key}']", ly) or find(
+            f"_x_ = {lp_}.get('{key}', None)", ly)
+        ctx.anchor(len(f) == 1, f"local bound to inp['{key}'] in layered()")
+        return f[0][1]['_x_']
+    obs, wgt, res = local_of('observed'), local_of('weights'), \
+        local_of('residual')
+    fr = find(f"_f_ = np.array([_q_ for _q_ in {lp_}['frequencies']"
+              ".values()])", ly)
+    ctx.anchor(len(fr) == 1, 'frequency vector in layered()')
+    freqs = fr[0][1]['_f_']
+    rloop = find(f"for _i_, (_k_, _r_) in enumerate(_recs_.items()):\n"
+                 "    __", ly) or [
+        (n, {}) for n in ast.walk(ly) if isinstance(n, ast.For) and
+        '.items()' in ast.unparse(n.iter) and 'enumerate' in
+        ast.unparse(n.iter)]
+    ctx.anchor(len(rloop) >= 1, 'receiver loop in layered()')
+    loop = rloop[0][0]
+    i_, k_ = loop.target.elts[0].id, loop.target.elts[1].elts[0].id
+    m1 = find(f'_fi_ = np.isfinite({obs}.loc[{k_}, :].data)', loop)
     ctx.check('C19.L2.mask', 'layered: mask from the observed data of this '
-              'receiver', 'fi=np.isfinite(observed.loc[rkey,:].data)' in t and
-              'fi=np.ones(frequencies.size,dtype=bool)' in t and
-              'iffi.sum()==0:continue' in t.replace('\n', ''),
-              'finite mask is not isfinite(observed[receiver]) / all-true '
-              'without observations', ctx.where(mp, ly))
-    ctx.floor('C19.L2.mask', 6)
+              'receiver', len(m1) == 1, 'finite mask is not '
+              'isfinite(observed[receiver])', ctx.where(mp, loop))
+    fi = m1[0][1]['_fi_'] if m1 else 'fi'
+    ctx.check('C19.L2.mask', 'layered: all-true mask without observations',
+              has(f'{fi} = np.ones({freqs}.size, dtype=bool)', loop),
+              'without observations not all frequencies are computed',
+              ctx.where(mp, loop))
+    ctx.check('C19.L2.mask', 'layered: receivers without finite data are '
+              'skipped', has(f'if {fi}.sum() == 0:\n    continue', loop),
+              'receivers without finite observations are not skipped',
+              ctx.where(mp, loop))
+    for what, pat in (('frequencies', f'_x_ = {freqs}[{fi}]'),
+                      ('observed', f'_x_ = {obs}.loc[{k_}, :].data[{fi}]'),
+                      ('weights', f'_x_ = {wgt}.loc[{k_}, :].data[{fi}]'),
+                      ('residual', f'_x_ = {res}.loc[{k_}, :].data[{fi}]'),
+                      ('output slots', f'_o_[{i_}, {fi}] = _empymod_fwd('
+                       '__, __, __)')):
+        ctx.check('C19.L2.mask', f'layered: finite mask applied to {what}',
+                  has(pat, loop), f'{what} are not restricted with the '
+                  'finite-observation mask of this receiver',
+                  ctx.where(mp, loop), sample={'array': what})
+    ctx.floor('C19.L2.mask', 8)
+    m2c = find('_m_ = _oned_.map.backward', loop)
+    ok = False
+    if m2c:
+        m2, oned = m2c[0][1]['_m_'], m2c[0][1]['_oned_']
+        vt = find("_vti_ = _mod_.case == 'VTI'", ly)
+        ok = bool(vt) and has(f'_h_ = {m2}({oned}.property_x[0, 0, :])',
+                              loop) and has(
+            f'_v_ = None if not {vt[0][1]["_vti_"]} else '
+            f'{m2}({oned}.property_z[0, 0, :])', loop)
     ctx.check('C19.L2.backward', 'layered: conductivities through '
-              'map.backward', 'map2cond=oned.map.backward' in t and
-              'cond_h=map2cond(oned.property_x[0,0,:])' in t and
-              'cond_v=Noneifnotvtielsemap2cond(oned.property_z[0,0,:])' in t
-              and "vti=model.case=='VTI'" in t,
-              'horizontal / vertical conductivities are not map.backward of '
-              'property_x / property_z (VTI only)', ctx.where(mp, ly))
+              'map.backward', ok, 'horizontal / vertical conductivities are '
+              'not map.backward of property_x / property_z (VTI only)',
+              ctx.where(mp, ly))
     ctx.check('C19.L2.backward', 'layered: receiver loop order = data order',
-              'fori,(rkey,rec)inenumerate(receivers.items()):' in t,
+              ast.unparse(loop.iter).replace(' ', '').startswith(
+                  'enumerate(') and '.items()' in ast.unparse(loop.iter),
               'receiver loop does not follow the data order',
               ctx.where(mp, ly))
+    g0 = find('_o_[0, ...] += _fd_gradient(_h_, _v_, __, __, __, __, __, '
+              'vertical=False)', loop)
+    g2 = find('_o_[2, ...] += _fd_gradient(_h_, _v_, __, __, __, __, __, '
+              'vertical=True)', loop)
     ctx.check('C19.L2.backward', 'layered: gradient slots',
-              'out[0,...]+=_fd_gradient(cond_h,cond_v,obs,wgt,misfit,'
-              'empymod_inp,imat,vertical=False)' in t and
-              'out[2,...]+=_fd_gradient(cond_h,cond_v,obs,wgt,misfit,'
-              'empymod_inp,imat,vertical=True)' in t,
-              'horizontal / vertical gradients are not accumulated into '
-              'components 0 / 2', ctx.where(mp, ly))
+              len(g0) == 1 and len(g2) == 1, 'horizontal / vertical '
+              'gradients are not accumulated into components 0 / 2',
+              ctx.where(mp, ly))
     # L3
     ef = mp.func('_empymod_fwd')
     ep = au.params(ef)
@@ -164,21 +201,25 @@ def run(ctx):
                   ctx.where(mp, gp), sample={'method': method,
                                              'result': list(got or [])})
     fd = mp.func('_fd_gradient')
-    t = ast.unparse(fd).replace(' ', '')
-    ctx.check('C19.L4.fd', '_fd_gradient: difference quotient',
-              'grad[iz]=(fd_misfit-misfit)/delta' in t and
-              'delta=cond_p[iz]*rel_diff' in t and 'cond_p[iz]+=delta' in t,
+    fp = au.params(fd)
+    q = find('_g_[_k_] = (_fdm_ - ' + fp[4] + ') / _delta_', fd)
+    ok = len(q) == 1
+    if ok:
+        bq = q[0][1]
+        ok = has(f'{bq["_delta_"]} = _c_[{bq["_k_"]}] * _rel_', fd) and has(
+            f'_c_[{bq["_k_"]}] += {bq["_delta_"]}', fd)
+    ctx.check('C19.L4.fd', '_fd_gradient: difference quotient', bool(ok),
               'finite-difference gradient is not (phi_pert - phi)/delta with '
               'the perturbed layer only', ctx.where(mp, fd))
+    cp = find(f'_c_ = {fp[0]}.copy() if not {fp[7]} else {fp[1]}.copy()', fd)
+    ok = len(cp) == 1 and has(
+        f'_r_ = _empymod_fwd({fp[0]}, {cp[0][1]["_c_"]}, {fp[5]})', fd) and \
+        has(f'_r_ = _empymod_fwd({cp[0][1]["_c_"]}, {fp[1]}, {fp[5]})', fd)
     ctx.check('C19.L4.fd', '_fd_gradient: perturbs a copy of the right '
-              'conductivity', 'cond_p=cond_h.copy()ifnotverticalelse'
-              'cond_v.copy()' in t and
-              'response=_empymod_fwd(cond_h,cond_p,empymod_inp)' in t and
-              'response=_empymod_fwd(cond_p,cond_v,empymod_inp)' in t,
-              'perturbation does not act on a copy of the horizontal / '
-              'vertical conductivity', ctx.where(mp, fd))
+              'conductivity', bool(ok), 'perturbation does not act on a copy '
+              'of the horizontal / vertical conductivity', ctx.where(mp, fd))
     ctx.check('C19.L4.fd', '_fd_gradient: distributed by the extraction '
-              'weights', 'returnimat[...,None]*grad[None,:]' in t,
+              'weights', has(f'return {fp[6]}[..., None] * _g_[None, :]', fd),
               'layer gradient is not distributed to the cells by imat',
               ctx.where(mp, fd))
     ctx.floor('C19.L4.points', 4)
